@@ -14,7 +14,9 @@ def rand_seq(rng, allow_big=False):
     items = []
     for _ in range(rng.randint(1, 3)):
         r = rng.random()
-        if r < 0.6:
+        if r < 0.12:
+            items.append(('k', rng.choice(['lsft', 'lctl', 'lalt'])))     # a modifier written as a plain member of the sequence
+        elif r < 0.6:
             items.append(('k', rng.choice(POOL)))
         elif r < 0.8:
             items.append(('mod', rng.choice(list(MODMASK)), [rng.choice(POOL) for _ in range(rng.randint(1, 2))]))
